@@ -204,10 +204,9 @@ type c05Snap struct {
 }
 
 func c05Snapshot(h *rtp.Header) c05Snap {
-	s := c05Snap{ext: h.Extension}
-	if h.Extension {
-		s.profile = h.ExtensionProfile
-	}
+	// every exported field counts for "a failing call leaves the header unchanged",
+	// ExtensionProfile included even while Extension is false (it steers later calls)
+	s := c05Snap{ext: h.Extension, profile: h.ExtensionProfile}
 	s.ids = append([]uint8(nil), h.GetExtensionIDs()...)
 	for _, id := range s.ids {
 		s.vals = append(s.vals, append([]byte(nil), h.GetExtension(id)...))
